@@ -4,16 +4,16 @@
 use super::*;
 
 /// the parts of a parsed certificate the model is told about
-struct View {
-    primary: PubAny,
-    users: Vec<(UserId, Vec<Signature>)>,
-    attrs: Vec<(Vec<u8>, usize, Vec<Signature>)>,
-    revocations: Vec<Signature>,
-    directs: Vec<Signature>,
-    subkeys: Vec<(PubAny, Vec<Signature>)>,
+pub(super) struct View {
+    pub primary: PubAny,
+    pub users: Vec<(UserId, Vec<Signature>)>,
+    pub attrs: Vec<(Vec<u8>, usize, Vec<Signature>)>,
+    pub revocations: Vec<Signature>,
+    pub directs: Vec<Signature>,
+    pub subkeys: Vec<(PubAny, Vec<Signature>)>,
 }
 
-fn view_public(k: &SignedPublicKey) -> View {
+pub(super) fn view_public(k: &SignedPublicKey) -> View {
     View {
         primary: PubAny::P(k.primary_key.clone()),
         users: k.details.users.iter().map(|u| (u.id.clone(), u.signatures.clone())).collect(),
@@ -24,7 +24,7 @@ fn view_public(k: &SignedPublicKey) -> View {
     }
 }
 
-fn view_secret(k: &SignedSecretKey) -> View {
+pub(super) fn view_secret(k: &SignedSecretKey) -> View {
     let mut subkeys: Vec<(PubAny, Vec<Signature>)> = k.public_subkeys.iter().map(|s| (PubAny::S(s.key.clone()), s.signatures.clone())).collect();
     subkeys.extend(k.secret_subkeys.iter().map(|s| (PubAny::S(s.key.public_key().clone()), s.signatures.clone())));
     View {
@@ -38,7 +38,7 @@ fn view_secret(k: &SignedSecretKey) -> View {
 }
 
 impl View {
-    fn n_sigs(&self) -> usize {
+    pub fn n_sigs(&self) -> usize {
         self.users.iter().map(|u| u.1.len()).sum::<usize>()
             + self.attrs.iter().map(|u| u.2.len()).sum::<usize>()
             + self.revocations.len()
@@ -48,7 +48,7 @@ impl View {
 
     /// every signature with the subject RFC 9580 5.2.4 gives it at its place in the certificate,
     /// and its signer (the embedded back-signatures of binding signatures included)
-    fn walk(&self) -> Vec<(Signature, Subject, PubAny)> {
+    pub fn walk(&self) -> Vec<(Signature, Subject, PubAny)> {
         let p = wkey(&self.primary);
         let mut out = Vec::new();
         for (uid, sigs) in &self.users {
@@ -75,7 +75,7 @@ impl View {
         out
     }
 
-    fn tables(&self, t0: &Tables) -> Tables {
+    pub fn tables(&self, t0: &Tables) -> Tables {
         let mut t = t0.clone();
         for (s, subj, _) in self.walk() {
             t = tables_for(&t, &[&body_of(&s)], &subj);
@@ -83,7 +83,7 @@ impl View {
         t
     }
 
-    fn request(&self, t: &Tables) -> String {
+    pub fn request(&self, t: &Tables) -> String {
         let sigs = |v: &[Signature]| if v.is_empty() { "-".to_string() } else { v.iter().map(|s| hex::encode(body_of(s))).collect::<Vec<_>>().join(".") };
         let mut r = format!("snd_cert {}", kdesc("p", &self.primary));
         for (uid, s) in &self.users {
@@ -114,7 +114,7 @@ impl View {
     }
 }
 
-fn reframe(pk: &[(u8, Vec<u8>)]) -> Vec<u8> {
+pub(super) fn reframe(pk: &[(u8, Vec<u8>)]) -> Vec<u8> {
     let mut v = Vec::new();
     for (t, b) in pk {
         v.extend(sigrec::packet5(*t, b));
@@ -122,7 +122,7 @@ fn reframe(pk: &[(u8, Vec<u8>)]) -> Vec<u8> {
     v
 }
 
-fn verdict(r: Result<pgp::errors::Result<()>, String>) -> String {
+pub(super) fn verdict(r: Result<pgp::errors::Result<()>, String>) -> String {
     answer(&r)
 }
 
